@@ -18,6 +18,11 @@ class Child:
     ws: List[int] = []
     hid: int = Attr(default=1, init=False)
 
+@spec_class
+class Child2(Child):
+    hid = 5          # merely re-defaulted: still not a constructor argument
+    extra2: int = 0
+
 @spec_class(key="k")
 class KChild:
     k: str
@@ -36,6 +41,7 @@ class P:
     tags: Set[int]
     kk: KeyedList[KChild, str]
     over: Over
+    child2: Child2
     overs: List[Over]
     nums: List[int]
     _private: int = 0
@@ -47,12 +53,14 @@ def T(fam, item=""):
 
 ST = {
     "Child": {"attrs": ["v", "ws", "hid"], "init": {"v": True, "ws": True, "hid": False}, "ty": {"v": T("scalar"), "ws": T("seq"), "hid": T("scalar")}, "overflow": ""},
+    "Child2": {"attrs": ["v", "ws", "hid", "extra2"], "init": {"v": True, "ws": True, "hid": False, "extra2": True},
+               "ty": {"v": T("scalar"), "ws": T("seq"), "hid": T("scalar"), "extra2": T("scalar")}, "overflow": ""},
     "KChild": {"attrs": ["k", "w"], "init": {"k": True, "w": True}, "ty": {"k": T("scalar"), "w": T("scalar")}, "overflow": ""},
     "Over": {"attrs": ["a", "extra"], "init": {"a": True, "extra": True}, "ty": {"a": T("scalar"), "extra": T("map")}, "overflow": "extra"},
-    "P": {"attrs": ["n", "child", "kids", "opts", "tags", "kk", "over", "overs", "nums"],
-          "init": {a: True for a in ["n", "child", "kids", "opts", "tags", "kk", "over", "overs", "nums"]},
+    "P": {"attrs": ["n", "child", "kids", "opts", "tags", "kk", "over", "child2", "overs", "nums"],
+          "init": {a: True for a in ["n", "child", "kids", "opts", "tags", "kk", "over", "child2", "overs", "nums"]},
           "ty": {"n": T("scalar"), "child": T("scalar", "Child"), "kids": T("seq", "Child"), "opts": T("map", "Child"), "tags": T("set"),
-                 "kk": T("seq", "KChild"), "over": T("scalar", "Over"), "overs": T("seq", "Over"), "nums": T("seq")}, "overflow": ""},
+                 "kk": T("seq", "KChild"), "over": T("scalar", "Over"), "child2": T("scalar", "Child2"), "overs": T("seq", "Over"), "nums": T("seq")}, "overflow": ""},
 }
 ITEM = {"kids": "kid", "opts": "opt", "tags": "tag", "kk": "kk_item", "overs": "over_item", "nums": "num", "ws": "w", "extra": "extra_item"}
 UNADVERTISED = ["zz", "hid", "_private", "extra", "nosuch_attr", "w"]
@@ -62,7 +70,7 @@ def methods():
     ns = {"__name__": "sig_scn"}
     exec(SRC, ns)
     out = []
-    for cname in ("P", "Child", "KChild", "Over"):
+    for cname in ("P", "Child", "Child2", "KChild", "Over"):
         cls = ns[cname]
         cls.__spec_class__
         out.append((cls, {"cls": cname, "fam": "init", "verb": "init", "attr": ""}, "__init__"))
